@@ -33,8 +33,11 @@ type r2tWaitAn struct {
 	decls    map[*types.Func]*ast.FuncDecl
 	writers  map[*types.Func]bool // write the list (transitively)
 	release  map[*types.Func]bool // release the guard (transitively)
+	acquire  map[*types.Func]bool // lock the guard (transitively)
 	readers  map[*types.Func]bool // read the list (transitively)
 	memo     map[*ast.FuncDecl]*r2tWaitRes
+	lockSum  map[*types.Func]*[3]uint8 // guard mode after a call, per entry mode (U, R, W); nil: no effect
+	lockBusy map[*types.Func]bool
 	busy     map[*ast.FuncDecl]bool
 }
 
@@ -368,6 +371,19 @@ func (a *r2tWaitAn) analyze(fd *ast.FuncDecl, depth int) *r2tWaitRes {
 		if fn == nil {
 			return
 		}
+		if sum := a.lockSummary(fn, 0); sum != nil {
+			// a helper that locks / unlocks the guard (lock wrappers): apply its effect
+			cur := st.get(a.guardKey)
+			var next uint8
+			for i, bit := range []uint8{dfU, dfR, dfW} {
+				if cur&bit != 0 {
+					next |= sum[i]
+				}
+			}
+			if next != 0 {
+				st[a.guardKey] = next
+			}
+		}
 		if _, inPkg := a.decls[fn]; inPkg {
 			rec := res.calls[call]
 			if rec == nil {
@@ -408,12 +424,83 @@ func (a *r2tWaitAn) analyze(fd *ast.FuncDecl, depth int) *r2tWaitRes {
 	return res
 }
 
+// lockSummary: the effect of calling fn on the guarding mutex, as exit mode(s) per entry mode,
+// computed by running the flow analysis over fn's body (helpers that lock/unlock are followed).
+// nil when fn never touches the guard.
+func (a *r2tWaitAn) lockSummary(fn *types.Func, depth int) *[3]uint8 {
+	if s, ok := a.lockSum[fn]; ok {
+		return s
+	}
+	fd := a.decls[fn]
+	if fd == nil || depth > 3 || a.lockBusy[fn] {
+		return nil
+	}
+	touches := false
+	ast.Inspect(fd.Body, func(n ast.Node) bool {
+		if call, ok := n.(*ast.CallExpr); ok {
+			if k, _, ok := dfMutexOp(a.info, call); ok && k == a.guardKey {
+				touches = true
+			} else if cal := CalleeOf(a.info, call); cal != nil && cal != fn && (a.release[cal] || a.acquire[cal]) {
+				touches = true
+			}
+		}
+		return true
+	})
+	if !touches {
+		a.lockSum[fn] = nil
+		return nil
+	}
+	a.lockBusy[fn] = true
+	defer func() { a.lockBusy[fn] = false }()
+	var sum [3]uint8
+	for i, entry := range []uint8{dfU, dfR, dfW} {
+		fl := &dfFlow{info: a.info}
+		fl.Call = func(call *ast.CallExpr, st dfState) {
+			if k, op, ok := dfMutexOp(a.info, call); ok {
+				dfApplyMutex(st, k, op)
+				return
+			}
+			if cal := CalleeOf(a.info, call); cal != nil && cal != fn {
+				if cs := a.lockSummary(cal, depth+1); cs != nil {
+					cur := st.get(a.guardKey)
+					var next uint8
+					for j, bit := range []uint8{dfU, dfR, dfW} {
+						if cur&bit != 0 {
+							next |= cs[j]
+						}
+					}
+					if next != 0 {
+						st[a.guardKey] = next
+					}
+				}
+			}
+		}
+		fl.Run(fd.Body, dfState{a.guardKey: entry})
+		var out uint8
+		for _, e := range fl.Exits {
+			if e.kind == "return" {
+				out |= e.st.get(a.guardKey)
+			}
+		}
+		if fl.EndExit != nil {
+			out |= fl.EndExit.st.get(a.guardKey)
+		}
+		if out == 0 {
+			out = entry
+		}
+		sum[i] = out
+	}
+	a.lockSum[fn] = &sum
+	return &sum
+}
+
 func ruleWaitRebuild(c *Ctx) []Obligation {
 	w := wtResolve(c)
 	p := c.Pkg("homescript/runtime")
 	info := p.TypesInfo
 	a := &r2tWaitAn{c: c, info: info, coreList: w.coreList, decls: map[*types.Func]*ast.FuncDecl{},
-		writers: map[*types.Func]bool{}, release: map[*types.Func]bool{}, readers: map[*types.Func]bool{}, memo: map[*ast.FuncDecl]*r2tWaitRes{}, busy: map[*ast.FuncDecl]bool{}}
+		writers: map[*types.Func]bool{}, release: map[*types.Func]bool{}, readers: map[*types.Func]bool{}, memo: map[*ast.FuncDecl]*r2tWaitRes{}, busy: map[*ast.FuncDecl]bool{},
+		lockSum: map[*types.Func]*[3]uint8{}, lockBusy: map[*types.Func]bool{}, acquire: map[*types.Func]bool{}}
 	var obs []Obligation
 	// the guarding mutex: a sync mutex field in the struct that owns the list
 	scope := p.Types.Scope()
@@ -462,8 +549,12 @@ func ruleWaitRebuild(c *Ctx) []Obligation {
 					}
 				}
 			case *ast.CallExpr:
-				if k, op, ok := dfMutexOp(info, x); ok && k == a.guardKey && (op == "Unlock" || op == "RUnlock") {
-					a.release[fn] = true
+				if k, op, ok := dfMutexOp(info, x); ok && k == a.guardKey {
+					if op == "Unlock" || op == "RUnlock" {
+						a.release[fn] = true
+					} else {
+						a.acquire[fn] = true
+					}
 				}
 			case *ast.SelectorExpr:
 				if info.Uses[x.Sel] == a.coreList && fn.Type().(*types.Signature).Results().Len() > 0 {
@@ -484,6 +575,9 @@ func ruleWaitRebuild(c *Ctx) []Obligation {
 						}
 						if a.release[cal] && !a.release[fn] {
 							a.release[fn], changed = true, true
+						}
+						if a.acquire[cal] && !a.acquire[fn] {
+							a.acquire[fn], changed = true, true
 						}
 						if a.readers[cal] && !a.readers[fn] && fn.Type().(*types.Signature).Results().Len() > 0 {
 							a.readers[fn], changed = true, true
